@@ -132,6 +132,7 @@ type c5range struct {
 	// '_' spellings: "a, _ := X" is still the two-variable form ('.' unchanged); "_ := X" is the
 	// one-variable form
 	discardA, discardB bool
+	discardKey         bool // '=' form with two variables, the key is assigned to '_'
 }
 type c5let struct{ name, val string }
 
@@ -394,6 +395,9 @@ func (g *c5gen) stmt(depth int) c5node {
 		if !r.assign && r.form == 1 && g.t.Choose(5) == 4 {
 			r.discardA = true
 		}
+		if r.assign && r.form == 2 && g.t.Choose(4) == 3 {
+			r.discardKey = true
+		}
 		savedVis := g.vis
 		if r.assign {
 			// the pre-declarations live in the enclosing list from here on
@@ -539,6 +543,9 @@ func c5src(b *strings.Builder, ns []c5node) {
 			}
 			if n.discardB {
 				vb = "_"
+			}
+			if n.discardKey {
+				va = "_"
 			}
 			switch n.form {
 			case 0:
@@ -738,8 +745,13 @@ func (e *c5eval) run(b *strings.Builder, ns []c5node, ctx string) {
 					}
 				case 2:
 					lastA, lastB = el.key, el.val
+					if n.discardKey {
+						lastA = "u" // the key goes to '_': the variable keeps what it was declared with
+					}
 					if n.assign {
-						e.assign(n.a, lastA)
+						if !n.discardKey {
+							e.assign(n.a, lastA)
+						}
 						e.assign(n.b, lastB)
 					} else {
 						e.frames[len(e.frames)-1][n.a] = lastA
